@@ -357,8 +357,20 @@ def m_str_rpartition(ex, st, args, kwargs, node):
     return [(st, VUnk("str.rpartition"))]
 
 
+def m_seq_endswith(ex, st, obj, args, kwargs, node, start=False):
+    sa, sb = ex._as_byteseq(st, obj), (ex._as_byteseq(st, args[0]) if args else None)
+    if sa is None or sb is None or len(args) != 1:
+        return ex.havoc_call(st, "bytes.endswith", args, node)
+    (n, e), (m, f) = sa, sb
+    j = z3.Int(fresh_name("j"))
+    off = z3.IntVal(0) if start else n - m
+    return [(st, VBool(z3.And(m <= n, z3.ForAll([j], z3.Implies(z3.And(j >= 0, j < m), e(off + j) == f(j))))))]
+
+
 def install_container_models(reg):
     common.install_bytesio(reg)
+    reg.method_models[("seq", "endswith")] = m_seq_endswith
+    reg.method_models[("seq", "startswith")] = lambda ex, st, o, a, k, n: m_seq_endswith(ex, st, o, a, k, n, start=True)
     reg.method_models[("XmlElem", "iter")] = m_xml_iter
     reg.attr_models[("XmlElem", "tag")] = lambda ex, st, o: VStr(TAG(o.t))
     reg.ext_models["str.rsplit"] = m_str_rsplit
@@ -741,6 +753,8 @@ class C08Executor(readfile.ReadFileExecutor):
 
     def get_attr(self, st, base, attr, node):
         from pyvc.values import VMod
+        if self._contracted_method(st, base, attr) is not None:
+            return [(st, VFunc("bound", base, attr))]      # an instance whose fields were havocked is still an instance of its class
         if attr in ("__name__", "__qualname__") and isinstance(base, VFunc):
             if base.how == "repo":
                 return [(st, VStr(base.b if attr == "__qualname__" else base.b.split(".")[-1]))]
@@ -758,7 +772,17 @@ class C08Executor(readfile.ReadFileExecutor):
             return [(st, VFunc("bound", base, attr))]        # see call_method: close() assumed total
         return super().get_attr(st, base, attr, node)
 
+    def _contracted_method(self, st, obj, name):
+        if hasattr(obj, "ref") and obj.ref in st.heap:
+            o = st.obj(obj.ref)
+            if o.kind == "unk" and o.cls:
+                return self.reg.get(f"{self.module.rel}::{o.cls}.{name}")
+        return None
+
     def call_method(self, st, obj, name, args, kwargs, node):
+        cm = self._contracted_method(st, obj, name)
+        if cm is not None and not cm.inline:
+            return self.apply_contract(st, cm, [obj] + list(args), kwargs, node)
         if isinstance(obj, VModDict) and name == "update" and len(args) == 1 and not kwargs:
             a = args[0]
             items = st.obj(a.ref).data if hasattr(a, "ref") and st.obj(a.ref).kind == "dict" else (a.items if hasattr(a, "items") and isinstance(getattr(a, "items"), dict) else None)
@@ -773,6 +797,11 @@ class C08Executor(readfile.ReadFileExecutor):
         return super().call_method(st, obj, name, args, kwargs, node)
 
     def compare(self, st, op, a, b, node):
+        if op in ("Eq", "NotEq") and (isinstance(a, VSeq) and a.is_bytes or isinstance(b, VSeq) and b.is_bytes):
+            sa, sb = self._as_byteseq(st, a), self._as_byteseq(st, b)
+            if sa is not None and sb is not None:
+                t = self._bytes_eq(sa, sb)
+                return [(st, VBool(t if op == "Eq" else z3.Not(t)))]
         if op in ("Eq", "NotEq"):
             for x, y in ((a, b), (b, a)):
                 if isinstance(x, VExt) and x.sort == "CoderId" and isinstance(y, VBytes):
@@ -912,6 +941,51 @@ class C08Executor(readfile.ReadFileExecutor):
         # the quantifier -- the cases are exhaustive and exclusive path conditions added after `base`
         cases = [z3.And([z3.BoolVal(True)] + list(s_.pc[base:]) + [self.truth(s_, v_).t]) for (s_, v_) in r]
         return [(st, VGen(vars_, z3.And(conds), z3.Or(cases)))]
+
+    @staticmethod
+    def _byte_int(v):
+        """Int term of a byte value (undoing the Int2BV an intermediate bytes([x]) wrapped around an Int)."""
+        t = v.t
+        if z3.is_bv(t) and z3.is_app(t) and t.decl().kind() == z3.Z3_OP_INT2BV:
+            return t.arg(0)
+        return ops.int_term(v)
+
+    def _as_byteseq(self, st, v):
+        """(length term, elem(i) -> Int term) of a bytes-like value, or None."""
+        if isinstance(v, VSeq) and v.is_bytes:
+            return v.length, (lambda i, v=v: self._byte_int(v.elem(i)))
+        if isinstance(v, VBytes):
+            items = [self._byte_int(x) for x in v.items]
+
+            def el(i, items=items):
+                acc = items[-1] if items else z3.IntVal(0)
+                for k_ in range(len(items) - 2, -1, -1):
+                    acc = z3.If(i == k_, items[k_], acc)
+                return acc
+            return z3.IntVal(len(items)), el
+        return None
+
+    def _byteseq(self, n, el, tag=None):
+        return VSeq(z3.simplify(n), lambda i: VInt(el(i)), "byte", True, tag=tag)
+
+    def _bytes_eq(self, a, b):
+        (na, ea), (nb, eb) = a, b
+        j = z3.Int(fresh_name("j"))
+        return z3.And(na == nb, z3.ForAll([j], z3.Implies(z3.And(j >= 0, j < na), ea(j) == eb(j))))
+
+    def binop(self, st, op, a, b, node, inplace=False):
+        if op == "Mult":
+            for x, cnt in ((a, b), (b, a)):
+                sx = self._as_byteseq(st, x) if isinstance(x, (VBytes, VSeq)) else None
+                if sx is not None and isinstance(cnt, VInt) and cnt.const() is None and isinstance(x, VBytes) and len(x.items) == 1:
+                    c_ = ops.int_term(cnt)
+                    return [(st, self._byteseq(z3.If(c_ < 0, z3.IntVal(0), c_), lambda i, e=sx[1]: e(z3.IntVal(0)), tag=("repeat",)))]
+        if op == "Add":
+            sa, sb = self._as_byteseq(st, a), self._as_byteseq(st, b)
+            if sa is not None and sb is not None and (isinstance(a, VSeq) or isinstance(b, VSeq)):
+                (na, ea), (nb, eb) = sa, sb
+                return [(st, self._byteseq(na + nb, lambda i: z3.If(i < na, ea(i), eb(i - na)), tag=("concat",)))]
+        return super().binop(st, op, a, b, node, inplace)
 
     def b_setattr(self, st, args, kwargs, node):
         """setattr(obj, "<literal or loop-unrolled name>", value) is the attribute store obj.<name> = value."""
@@ -1436,6 +1510,57 @@ def n_yields(c):
     return c.st.ghost.get("n_yields", 0) + (1 if c.st.ghost.get("yield_count_unknown") else 0)
 
 
+# ---- the encryption signal of the 7z reader travels up the call chain unchanged --------------------------------------------
+def _signal(ex):
+    name, dedicated = aes_signal(ex.module.repo)
+    return name if dedicated and ex.uni.known(name) else None
+
+
+def _verifying(c):
+    """True while the clause is evaluated on the body of the function under contract (False: assumed at a call site)."""
+    ec = getattr(c.ex, "entry_ctx", None)
+    return ec is not None and c.args is ec.args
+
+
+def signal_raises(extra_when=None):
+    """Two raise clauses for a function of the chain, as seen by its callers: (1) the dedicated encryption signal,
+    (2) anything else.  Which of the two produced an exception is recorded in ghost state (`signal_from_callee`)."""
+    def w_signal(c):
+        if _verifying(c):
+            return z3.BoolVal(True)            # (on the body: which class may escape is the business of exc_ensures)
+        if _signal(c.ex) is None:
+            return z3.BoolVal(False)
+        c.st.ghost["signal_from_callee"] = True
+        c.st.ghost["last_raise_is_signal"] = True
+        return extra_when(c) if extra_when is not None else z3.BoolVal(True)
+
+    def w_other(c):
+        if not _verifying(c):
+            c.st.ghost["last_raise_is_signal"] = False
+        return z3.BoolVal(True)
+    sig = aes_signal()[0]
+    return [Raises(sig, sub=True, when=w_signal, label="the encryption signal of the decoder"), Raises("Exception", sub=True, when=w_other)]
+
+
+def signal_exc_ensures():
+    def preserved(c):
+        sg = _signal(c.ex)
+        if sg is None:
+            return z3.BoolVal(True)
+        is_sig = c.ex.uni.subclass_term(c.exc.tidx, sg)
+        if not _verifying(c):       # at a call site: the exception is the signal exactly when raise clause (1) produced it
+            return is_sig == z3.BoolVal(bool(c.st.ghost.get("last_raise_is_signal")))
+        c.note = "an encryption signal raised further down (AES coder) leaves this function as a different exception class"
+        return z3.Implies(z3.BoolVal(bool(c.st.ghost.get("signal_from_callee"))), is_sig)
+
+    def only_from_decoder(c):
+        sg = _signal(c.ex)
+        if sg is None or not _verifying(c) or "site" in c.exc.attrs:
+            return z3.BoolVal(True)
+        return z3.Implies(c.ex.uni.subclass_term(c.exc.tidx, sg), z3.BoolVal(bool(c.st.ghost.get("signal_from_callee")) or bool(c.exc.attrs.get("aes_branch"))))
+    return [("encryption-signal-of-the-decoder-is-passed-on-unchanged", preserved), ("encryption-signal-only-from-the-decoder", only_from_decoder)]
+
+
 def archive_contracts(reg):
     out = []
     AP = [("file_like", p_ext("BytesIO")), ("archive_path", p_opt(p_str()))]
@@ -1568,13 +1693,14 @@ def archive_contracts(reg):
     out.append(FnContract(
         target=f"{SEVEN}::SevenZipReader._apply_decoder",
         params=[("self", p_unk()), ("coder_id", p_ext("CoderId")), ("properties", p_unk()), ("data", p_unk()), ("unpack_sizes", p_unk())],
-        ensures=[("data-returned-only-for-non-aes-coders", lambda c: z3.Not(is_aes(c.args["coder_id"].t)))],
-        raises=[Raises("Exception", sub=True)],
-        exc_ensures=[("aes-coder-raises-Bad7zFile-itself", lambda c: z3.Implies(is_aes(c.args["coder_id"].t), z3.And(
-            z3.BoolVal(own(c)), c.ex.uni.subclass_term(c.exc.tidx, "Bad7zFile")))),
+        ensures=[("data-returned-only-for-non-aes-coders", lambda c: z3.Not(is_aes(c.args["coder_id"].t)) if isinstance(c.args["coder_id"], VExt) else z3.BoolVal(True))],
+        raises=signal_raises(lambda c: is_aes(c.args["coder_id"].t) if isinstance(c.args["coder_id"], VExt) else z3.BoolVal(True)),
+        exc_ensures=[("raised-class-as-announced-to-callers", lambda c: signal_exc_ensures()[0][1](c) if not _verifying(c) else z3.BoolVal(True)),
+                     ("aes-coder-raises-Bad7zFile-itself", lambda c: z3.Implies(is_aes(c.args["coder_id"].t), z3.And(
+            z3.BoolVal(own(c)), c.ex.uni.subclass_term(c.exc.tidx, "Bad7zFile"))) if _verifying(c) else z3.BoolVal(True)),
                      ("dedicated-encryption-signal-only-for-aes-coders", lambda c: z3.Implies(
                          z3.And(z3.BoolVal(own(c) and aes_signal(c.ex.module.repo)[1]), c.ex.uni.subclass_term(c.exc.tidx, aes_signal(c.ex.module.repo)[0])
-                                if c.ex.uni.known(aes_signal(c.ex.module.repo)[0]) else z3.BoolVal(False)), is_aes(c.args["coder_id"].t)))],
+                                if c.ex.uni.known(aes_signal(c.ex.module.repo)[0]) else z3.BoolVal(False)), is_aes(c.args["coder_id"].t)) if _verifying(c) else z3.BoolVal(True))],
         note="an AES coder is never decoded / passed through: Bad7zFile"))
     EXECUTOR_KW[f"{SEVEN}::SevenZipReader._apply_decoder"] = {"abstract": True, "inline_calls": False, "inline_local": True}
 
@@ -1620,13 +1746,39 @@ def archive_contracts(reg):
         target=t,
         params=[("self", p_obj("SevenZipReader", {"_archive_file": p_unk()})), ("folder", p_ext("Folder")), ("pack_pos", p_unk()),
                 ("pack_sizes", p_unk()), ("source_file", p_unk())],
-        requires=lambda c: NCOD(c.args["folder"].t) >= 0, modifies=("self",),
-        ensures=[("decoded-data-only-if-no-coder-of-the-folder-is-aes", lambda c: z3.Not(folder_has_aes(c.args["folder"].t)))],
-        raises=[Raises("Exception", sub=True)],
-        exc_ensures=[("encryption-signal-only-if-some-coder-is-aes", dec_signal_only_aes)],
+        requires=lambda c: NCOD(c.args["folder"].t) >= 0 if isinstance(c.args["folder"], VExt) else z3.BoolVal(True), modifies=("self",),
+        ensures=[("decoded-data-only-if-no-coder-of-the-folder-is-aes",
+                  lambda c: z3.Not(folder_has_aes(c.args["folder"].t)) if isinstance(c.args["folder"], VExt) else z3.BoolVal(True))],
+        raises=signal_raises(lambda c: folder_has_aes(c.args["folder"].t) if isinstance(c.args["folder"], VExt) else z3.BoolVal(True)),
+        exc_ensures=[("encryption-signal-only-if-some-coder-is-aes", lambda c: dec_signal_only_aes(c) if _verifying(c) else z3.BoolVal(True))] + signal_exc_ensures(),
         loops={},
         note="every coder of the chain goes through _apply_decoder (contract: an AES coder never returns data)"))
     EXECUTOR_KW[t] = {"abstract": True, "inline_calls": False, "inline_local": True}
+
+    # the way up: _parse_encoded_header -> _parse_end_header -> _parse_header -> SevenZipReader.__init__ -> SevenZipFile.__enter__
+    # (an AES-coded *header* is met while the reader is being constructed).  Each link passes the decoder's encryption signal
+    # on unchanged -- this is what the extractor's `except <signal>` relies on (model `with_7z`).
+    READER_SELF = p_obj("SevenZipReader", {"_archive_file": p_unk(), "_stream": p_unk(), "_header_offset": p_unk()})
+    chain = [("SevenZipReader._parse_encoded_header", [("self", READER_SELF)]),
+             ("SevenZipReader._parse_end_header", [("self", READER_SELF)]),
+             ("SevenZipReader._parse_header", [("self", READER_SELF)]),
+             ("SevenZipReader.__init__", [("self", p_obj("SevenZipReader", {})), ("file", p_unk())]),
+             ("SevenZipFile.__enter__", [("self", p_obj("SevenZipFile", {"_file": p_unk(), "_password": p_unk(), "_reader": p_unk()}))])]
+    chain_contracts = {}
+    for q, params in chain:
+        t = f"{SEVEN}::{q}"
+        cc = FnContract(target=t, params=params, modifies=("self",), raises=signal_raises(), exc_ensures=signal_exc_ensures(),
+                        result_maker=lambda ex, st, ctx: VUnk("result"),
+                        note="passes the decoder's encryption signal on unchanged (and raises it for no other reason)")
+        EXECUTOR_KW[t] = {"abstract": True, "inline_calls": False, "inline_local": True}
+        chain_contracts[q] = cc
+        out.append(cc)
+
+    def new_reader(ex, st, args, kwargs, node):
+        """SevenZipReader(file): runs __init__ -- by its contract"""
+        obj = ex.new_obj(st, "SevenZipReader", {})
+        return [(s_, obj) for (s_, _v) in ex.apply_contract(st, chain_contracts["SevenZipReader.__init__"], [obj] + list(args), kwargs, node)]
+    reg.ext_models[("new", "SevenZipReader")] = new_reader
     return out
 
 
@@ -1804,6 +1956,71 @@ def _setattr_class(ex, st, base, attr, v, node):
     return [st]
 
 
+PBYTE = z3.Function("message_byte", I, I)        # the bytes of the symbolic message (0..255)
+PLEN = z3.Int("message_len")
+
+
+def p_message():
+    def mk(ex, st, name):
+        j = z3.Int("j!msg")
+        rng = z3.ForAll([j], z3.And(PBYTE(j) >= 0, PBYTE(j) <= 255), patterns=[PBYTE(j)])
+        return [(z3.And(PLEN >= 0, rng), VSeq(PLEN, lambda i: VInt(PBYTE(i)), "byte", True, tag=("message",)))]
+    return Maker(mk, desc="bytes of any length")
+
+
+def pkcs7_contracts(reg):
+    """PKCS#7 as used by the CryptAES wrapper (RFC 5652 6.3): pad appends p = bs - len % bs bytes of value p (1..bs, a FULL block
+    when the length is a multiple of bs); unpad of a well-formed padding removes exactly those p bytes.  What unpad does with
+    bytes that do NOT end in a well-formed padding (raise, or hand them back) is not prescribed here."""
+    out = []
+    BS = 16
+
+    def res_view(c):
+        r = c.result
+        return c.ex._as_byteseq(c.st, r) if isinstance(r, (VSeq, VBytes)) else None
+
+    def pad_post(c):
+        rv = res_view(c)
+        if rv is None:
+            return z3.BoolVal(False)
+        n, e = rv
+        p = BS - PLEN % BS
+        j = z3.Int("j!pad")
+        return z3.And(n == PLEN + p, z3.ForAll([j], z3.Implies(z3.And(j >= 0, j < n), e(j) == z3.If(j < PLEN, PBYTE(j), p))))
+    t = f"{AESFB}::_pkcs7_pad"
+    out.append(FnContract(target=t, params=[("data", p_message()), ("block_size", p_const(BS))], raises=[],
+                          ensures=[("data-followed-by-p-bytes-of-value-p-with-p-in-1..16", pad_post)],
+                          note="p = 16 - len(data) % 16: a whole block of padding for block-aligned data"))
+
+    def well_padded():
+        p = PBYTE(PLEN - 1)
+        j = z3.Int("j!wp")
+        return z3.And(PLEN > 0, p >= 1, p <= BS, p <= PLEN, z3.ForAll([j], z3.Implies(z3.And(j >= PLEN - p, j < PLEN), PBYTE(j) == p), patterns=[PBYTE(j)]))
+
+    def unpad_post(c):
+        rv = res_view(c)
+        if rv is None:
+            return z3.BoolVal(False)
+        n, e = rv
+        j = z3.Int("j!unpad")
+        return z3.Implies(well_padded(), z3.And(n == PLEN - PBYTE(PLEN - 1), z3.ForAll([j], z3.Implies(z3.And(j >= 0, j < n), e(j) == PBYTE(j)))))
+
+    def unpad_prefix(c):
+        rv = res_view(c)
+        if rv is None:
+            return z3.BoolVal(False)
+        n, e = rv
+        j = z3.Int("j!pre")
+        return z3.And(n <= PLEN, z3.ForAll([j], z3.Implies(z3.And(j >= 0, j < n), e(j) == PBYTE(j))))
+    t = f"{AESFB}::_pkcs7_unpad"
+    out.append(FnContract(target=t, params=[("data", p_message()), ("block_size", p_const(BS))],
+                          ensures=[("well-formed-padding-of-1..16-bytes-is-removed-exactly", unpad_post),
+                                   ("result-is-a-prefix-of-the-input", unpad_prefix)],
+                          raises=[Raises("ValueError", when=lambda c: z3.Not(well_padded()), label="only for bytes that do not end in a well-formed padding")],
+                          note="a full padding block (16 x 0x10) is a well-formed padding"))
+    return out
+
+
 def aes_patch_contract(reg):
     reg.ext_models[("setattr", "mod")] = _setattr_module
     reg.ext_models[("setattr", "PyClass")] = _setattr_class
@@ -1870,6 +2087,7 @@ def pdf_contracts(reg):
     reg.method_models[("PdfReader", "decrypt")] = m_pdf_decrypt
     out = []
     out.append(aes_patch_contract(reg))
+    out += pkcs7_contracts(reg)
     t = f"{PDF}::_open_pdf_reader"
     out.append(FnContract(
         target=t, params=[("file_like", p_ext("BytesIO"))], modifies=("file_like",),
@@ -2075,20 +2293,6 @@ def policy(repo, tier):
         ok = bool(res) and all(r.ok for r in res) and fresh and none_init
         why = f"{len(res)} yield(s); parse dominates={all(r.ok for r in res)}; fresh reader={fresh}; __init__ sets _content=None: {none_init}"
     obls.append(ground_obligation("C08/doc_extractor.py::read_doc/policy#parse-of-a-fresh-reader-dominates-the-yield", ok, why, DOC, definite=False))
-    # P3: 7z: an AES-coded header reaches _apply_decoder while the reader is constructed (call chain, syntactic)
-    m = loader.module(SEVEN, repo)
-    chain = ["SevenZipReader.__init__", "SevenZipReader._parse_header", "SevenZipReader._parse_end_header", "SevenZipReader._parse_encoded_header",
-             "SevenZipReader._decompress_folder", "SevenZipReader._apply_decoder"]
-    missing = []
-    for a, b in zip(chain, chain[1:]):
-        fa = m.functions.get(a)
-        if fa is None or not any(isinstance(n, ast.Call) and isinstance(n.func, ast.Attribute) and n.func.attr == b.split(".")[-1] for n in ast.walk(fa)):
-            missing.append(f"{a} -> {b}")
-    ent = m.functions.get("SevenZipFile.__enter__")
-    if ent is None or not any(isinstance(n, ast.Call) and dotted(n.func) == "SevenZipReader" for n in ast.walk(ent)):
-        missing.append("SevenZipFile.__enter__ -> SevenZipReader()")
-    obls.append(ground_obligation("C08/sevenzip.py::SevenZipReader/policy#encoded-header-is-decoded-through-_apply_decoder", not missing,
-                                  "; ".join(missing) or "call chain present", SEVEN, definite=False))
     # P5: entry point "attachments of an e-mail": the file-encrypted error of an attachment's extractor is passed on, not
     #     swallowed by the per-attachment `except Exception` (handler order on the real AST)
     DT = X + "data_types.py"
@@ -2150,7 +2354,36 @@ def view_validation(repo, tier):
     return {"obligations": obls, "functions": []}
 
 
-EXTRA = [policy, view_validation]
+def native_sweep(repo, tier):
+    """BOUNDED (never counted as discharged): the native replayer's whole input grammar is run against the real code on
+    every check, whatever the deductive obligations say -- written compound files (every marker as stream / storage / other
+    spelling), ZIP flag bits per member, BIFF chains, ODF manifests, 7z coder chains incl. encrypted headers, EPUB
+    encryption.xml / rights.xml, stored RC4 / AES PDFs (incl. block-aligned streams) read in fresh processes, CryptAES round
+    trips for every length 0..49, protected fixtures through every entry point.  A deviation is a reproduced failing input."""
+    import json
+    import os
+    import subprocess
+    root = os.path.dirname(os.path.dirname(os.path.abspath(__file__)))
+    oid = "C08/native::sweep/bounded#encrypted-rejected-before-any-result-and-plain-never-rejected"
+    try:
+        p = subprocess.run(["/venv/bin/python", os.path.join(root, "replay", "run.py")], input=json.dumps({"property": "C08", "obligation": oid, "repo": repo}),
+                           capture_output=True, text=True, timeout=900, env=dict(os.environ, VERIF_REPO=repo))
+        res = json.loads([l for l in p.stdout.splitlines() if l.startswith("{")][-1])
+    except Exception as e:  # noqa
+        res = {"reproduced": False, "note": "sweep did not run: " + str(e)[:200], "failed_to_run": True}
+    if res.get("reproduced"):
+        o = ground_obligation(oid, False, f"{res.get('target')}: inputs {json.dumps(res.get('inputs'), default=str)[:300]} expected {res.get('expected')} "
+                              f"observed {str(res.get('observed'))[:200]}", "replay/C08.py", kind="bounded", backend="native")
+    else:
+        o = ground_obligation(oid, not res.get("failed_to_run") and "crashed" not in str(res.get("note", "")), str(res.get("note", ""))[:300],
+                              "replay/C08.py", kind="bounded", backend="native", definite=False)
+        if o["status"] == "proved":
+            o["status"] = "bounded-ok"
+    o["bounded"] = True
+    return {"obligations": [o], "functions": []}
+
+
+EXTRA = [policy, view_validation, native_sweep]
 
 
 def post_report(c, rep):
@@ -2220,7 +2453,8 @@ ASSUMED_MODELS = [
     "bytes.decode('utf-8', errors='ignore') of the ODF manifest is its text (UTF-8 producers; a UTF-16 manifest is outside the model)",
     "struct.Struct('<H'|'<I').unpack_from: little-endian unsigned field, struct.error when out of range",
     "int.from_bytes(b, 'little') for 0..2 bytes",
-    "SevenZipFile(f): __enter__ parses the archive; an AES-coded encoded header makes it raise _apply_decoder's Bad7zFile (call chain checked syntactically)",
+    "SevenZipFile(f).__enter__ parses the archive; when the parse reaches an AES coder of the encoded header the decoder's encryption signal escapes "
+    "(verified link by link: _apply_decoder, _decompress_folder, _parse_encoded_header, _parse_end_header, _parse_header, SevenZipReader.__init__, SevenZipFile.__enter__)",
     "SevenZipFile.needs_password() on the opened archive = verified contract of SevenZipFile/SevenZipReader.needs_password",
     "_EpubContext(f).exists / read_xml_root / close (total); Element.findall('.//{xmlenc}EncryptedData') = all such descendants",
     "pypdf.PdfReader(f), .is_encrypted, .decrypt(''), .pages",
